@@ -112,6 +112,8 @@ class Server(utils.EventEmitter):
         self, spec: l2cap.LeCreditBasedChannelSpec | None = None
     ) -> l2cap.LeCreditBasedChannelServer:
         def on_channel(channel: l2cap.LeCreditBasedChannel):
+            # Drop the per-bearer state when the bearer goes away
+            channel.once(channel.EVENT_CLOSE, lambda: self.on_disconnection(channel))
             logger.debug(
                 "New EATT Bearer Connection=0x%04X CID=0x%04X",
                 channel.connection.handle,
